@@ -12,7 +12,7 @@ from .c03 import FakePio
 PROPERTY_ID = "C19"
 LEVEL = "exploration"
 RULE = (
-    "case = (stage in walk / visit_leaves / transform / multi-image tiling, item set, worker count k, schedule, ONE failing "
+    "case = (stage in walk / visit_leaves / transform / multi-TAN tiling / multi-WCS tiling, item set, worker count k, schedule, ONE failing "
     "item chosen among the items the stage will process). The callback (or the tile I/O of the transform / the tile update "
     "of the multi-image tiler) raises for that item. k=1 runs serially; k>=2 runs the real producer/worker code on Engine A "
     "with a generated schedule. Oracle: the public call must end by raising in the caller - returning normally is a "
@@ -140,6 +140,53 @@ def exec_multi_tan(case, k, classes, desc):
     return Outcome(classes=classes, nontrivial=k >= 2 and counter["fail_at"] > 1, info={"failing_update": counter["fail_at"], "of": total})
 
 
+def exec_multi_wcs(case, k, classes, desc):
+    import os
+    import warnings
+    from toasty import collection, multi_wcs
+    from toasty.builder import Builder
+    from toasty.pyramid import PyramidIO
+    from ..core import fresh_dir
+    from .c03 import write_wcs_inputs, stub_reproject
+
+    E = exc_class(case.get("exc", "runtime"))
+    n = len(case["images"])
+    fail_input = case["fail_idx"] % n
+    with fresh_dir("c19mw-") as d:
+        ind = os.path.join(d, "in")
+        os.makedirs(ind)
+        paths = write_wcs_inputs(case, ind)
+
+        def failing_reproject(input_data, **kw):
+            arr, _w = input_data
+            if int(round(float(np.asarray(arr).flat[0]))) == fail_input + 1:
+                raise E(f"injected reprojection failure for input {fail_input}")
+            return stub_reproject(input_data, **kw)
+
+        pio = PyramidIO(os.path.join(d, "run"), default_format="fits")
+        with warnings.catch_warnings():
+            warnings.simplefilter("ignore")
+            proc = multi_wcs.MultiWcsProcessor(collection.load(paths))
+            try:
+                proc.compute_global_pixelization(Builder(pio))
+            except Exception:
+                return Outcome(classes=classes + ["pixelization-refused"], nontrivial=False)
+
+        def make_target(w):
+            def go():
+                with warnings.catch_warnings():
+                    warnings.simplefilter("ignore")
+                    proc.tile(pio, failing_reproject, parallel=k)
+
+            return go
+
+        status, exc, hang, w = run(None, k, case.get("sched"), make_target)
+    desc["failing_input"] = fail_input
+    judge(desc, status, exc, hang)
+    classes.append("inputs%d" % n)
+    return Outcome(classes=classes, nontrivial=k >= 2 and fail_input > 0, info={"failing_input": fail_input})
+
+
 def exec_case(case):
     stage = case["stage"]
     k = case.get("k", 1)
@@ -148,6 +195,8 @@ def exec_case(case):
     E = exc_class(case.get("exc", "runtime"))
     if stage == "multi_tan":
         return exec_multi_tan(case, k, classes, desc)
+    if stage == "multi_wcs":
+        return exec_multi_wcs(case, k, classes, desc)
     if stage in ("walk", "leaves"):
         ref = scen.ref_of(case)
         order = [p for p in ref.order if p in (ref.ops if stage == "walk" else ref.leaves)]
@@ -198,8 +247,16 @@ def exec_case(case):
 
 @st.composite
 def strat(draw, tier):
-    stage = draw(st.sampled_from(["walk", "walk", "leaves", "leaves", "transform", "transform", "multi_tan"]))
-    if stage == "multi_tan":
+    stage = draw(st.sampled_from(["walk", "walk", "leaves", "leaves", "transform", "transform", "multi_tan", "multi_wcs"]))
+    if stage == "multi_wcs":
+        from .c03 import strat_multi_wcs
+
+        case = draw(strat_multi_wcs(tier))
+        case["stage"] = stage
+        case["k"] = draw(st.sampled_from([1, 2, 2, 3]))
+        if case["k"] == 1:
+            case.pop("sched", None)
+    elif stage == "multi_tan":
         from .. import mtgen
 
         case = draw(mtgen.mosaic_cases(tier, max_size=300, max_inputs=6))
